@@ -51,6 +51,7 @@ pub fn gen_case_with(rng: &mut Rng, ctx: &mut Ctx, input: bool, stop: bool, faul
         await_breaks: vec![],
         stop_cmds: vec![],
         trace_via_command: false,
+            reply_breaks: vec![],
     }
 }
 
